@@ -150,6 +150,24 @@ func (p *Program) computeProtected() {
 				}
 			}
 		}
+		// primitives of a byte cursor: methods on a named []byte type that index or reslice the receiver
+		// themselves (their bounds are proved once, in their own body, from what their callers guarantee)
+		if rv := sig.Recv(); rv != nil && isByteSlice(derefT(rv.Type())) && len(f.Params) > 0 {
+			for _, b := range f.Blocks {
+				for _, in := range b.Instrs {
+					var base ssa.Value
+					switch x := in.(type) {
+					case *ssa.IndexAddr:
+						base = x.X
+					case *ssa.Slice:
+						base = x.X
+					}
+					if u, ok := base.(*ssa.UnOp); ok && u.X == ssa.Value(f.Params[0]) {
+						prot = true
+					}
+				}
+			}
+		}
 		// constructors: return a pointer to a struct of their own package that they allocate
 		if sig.Results().Len() >= 1 {
 			if pt, ok := sig.Results().At(0).Type().(*types.Pointer); ok {
